@@ -1,6 +1,76 @@
 import Driver.Util
-open Lean
+import Driver.Run
+import DoitModel.Model.RunTeardown
+open Lean DoitModel.Run
 namespace Driver.P11
-/-- handler for requests with `"model": "c11"` (property-specific monitors / model queries of C11; stub until built) -/
-def handle (_ : Json) : Json := Driver.err "model not implemented"
+/-! Handler for `{"model":"c11", ...}`: the C11 monitors on an observed run and the teardown log the extended model
+(`Model/RunTeardown.lean`) produces for it.
+
+Request = the `run` request of harness/runlib.py (task table, oracle, flags, `trace`, `exit`, `err`) plus
+  "tdFail": [bool per task]          teardown actions that fail
+  "mixed":  [item...]                merged chronological observation: ["start",n,w] ["end",n,w] ["td",n,who] ["tderr",n,who]
+                                     (who = worker index, or -1 for the main thread / main process)
+  "nworkers": k                      number of worker entities (process runner)
+  "procFixed": bool                  model variant with the repair of the open finding process-teardown-failure
+Answer: {"monitor": {"C11_lazy", "C11_setup_before", "C11_td_exact", "C11_td_after"},
+         "model_td": the teardown log of the model for the observed start order (same item format; process runner:
+                     worker by worker), "model_crash": the model's main process dies (failing teardown in a worker
+                     process at HEAD), "justified": the tasks the laziness monitor accepts as needed}
+
+`model_td` is `teardownRun` / `workerTeardown` over the start order — by `C11_teardown_shared` /
+`C11_teardown_process_exact` (Props/C11.lean) this IS the log of every complete run of the extended model that has these start events; that such a run of the model
+exists is what the `run`/`accept` request (sent alongside by the harness) establishes. -/
+
+def whoOf (j : Json) : Option Nat :=
+  match j.getInt? with
+  | .ok i => if i < 0 then none else some i.toNat
+  | _ => none
+
+def parseMixed (j : Json) : Option MEv :=
+  match asArr j with
+  | [t, n, x] =>
+    match asStr t with
+    | "start" => some (.ev (.start (asNat n) (asNat x)))
+    | "end" => some (.ev (.fin (asNat n) (asNat x)))
+    | "td" => some (.td (.run (asNat n) (whoOf x)))
+    | "tderr" => some (.td (.err (asNat n) (whoOf x)))
+    | _ => none
+  | _ => none
+
+def whoJson : Option Nat → Json
+  | some w => toJson w
+  | none => toJson (-1 : Int)
+
+def tdJson : TdEv → Json
+  | .run n w => mkArr [Json.str "td", toJson n, whoJson w]
+  | .err n w => mkArr [Json.str "tderr", toJson n, whoJson w]
+
+def handle (j : Json) : Json :=
+  let inp := Driver.Run.parseInput j
+  let n := jnat j "n"
+  let tdFail := Driver.Run.boolsOf j "tdFail" false
+  let nW := jnat j "nworkers"
+  match (jarr j "trace").mapM Driver.Run.parseEv, (jarr j "mixed").mapM parseMixed with
+  | some tr, some mixed =>
+    let starts := mixed.filterMap fun x => match x with | .ev e => some e | _ => none
+    let tdlog := mixed.filterMap fun x => match x with | .td t => some t | _ => none
+    let v : Variant := { procFixed := jbool j "procFixed" }
+    let modelTd : List TdEv :=
+      if inp.runner = .process then
+        (List.range nW).flatMap fun w => workerTeardown v tdFail w (startOrderOf inp w starts.reverse)
+      else teardownRun tdFail none (startOrder inp starts.reverse)
+    let modelCrash : Bool := inp.runner = .process && !v.procFixed &&
+      (List.range nW).any fun w => (startOrderOf inp w starts.reverse).any tdFail
+    let exact := monTdExact inp tdFail nW starts tdlog
+    Json.mkObj [
+      ("monitor", Json.mkObj [
+        ("C11_lazy", Json.bool (monLazy inp n tr)),
+        ("C11_setup_before", Json.bool (monSetupBefore inp tr)),
+        ("C11_td_exact", Json.bool exact),
+        ("C11_td_after", Json.bool (monTdAfter inp nW mixed))]),
+      ("model_td", mkArr (modelTd.map tdJson)),
+      ("model_crash", Json.bool modelCrash),
+      ("justified", ofNats (lazyIter inp n tr (n + 1) (addNew [] inp.sel)))]
+  | _, _ => Driver.err "bad event in trace / mixed"
+
 end Driver.P11
